@@ -63,7 +63,7 @@ def build(name, repo_key, harness_src, defines, shim=True, extra_flags=(), plain
         base += ["-include", os.path.join(VERIF, "engine", "vshim.hpp"), "-DCPP_UTILITY_VERIF=1"]
     flags = base + ["-D" + d for d in defines] + list(extra_flags)
     h = hashlib.sha256()
-    h.update(" ".join([CXX] + flags + [name, harness_src] + list(plain_sources)).encode())
+    h.update(" ".join([CXX] + flags + [name, harness_src, "objcopy-v1"] + list(plain_sources)).encode())
     _hash_files(h, repo_srcs + _tree(os.path.join(REPO, "include"), (".hpp", ".h")) + engine_files + harness_files)
     key = h.hexdigest()[:20]
     outdir = os.path.join(BUILD, name + "-" + key)
@@ -98,6 +98,17 @@ def build(name, repo_key, harness_src, defines, shim=True, extra_flags=(), plain
             if p.returncode != 0:
                 shutil.rmtree(tmp, ignore_errors=True)
                 raise InternalError("compilation of %s failed:\n%s" % (src, err.decode()[-4000:]))
+        if shim and link_engine:
+            # writable static data of the library goes to its own sections, so that the engine can restore
+            # it to its initial image before every execution (globals that survive an execution would make
+            # executions depend on their predecessors and break replay)
+            for i in range(len(repo_srcs)):
+                o = os.path.join(tmp, "repo%d.o" % i)
+                r = subprocess.run(["objcopy", "--rename-section", ".data=repo_data", "--rename-section", ".bss=repo_bss", o],
+                                   stderr=subprocess.PIPE)
+                if r.returncode != 0:
+                    shutil.rmtree(tmp, ignore_errors=True)
+                    raise InternalError("objcopy failed: " + r.stderr.decode()[-1000:])
         p = subprocess.run([CXX, "-no-pie"] + list(extra_flags) + objs + ["-o", os.path.join(tmp, name), "-lpthread"],
                            stderr=subprocess.PIPE)
         if p.returncode != 0:
